@@ -39,9 +39,10 @@ R.contract(
     returns="T",
     requires={"nonempty": "len(choices) >= 1"},
     ensures={
-        "member": "exists(0, len(choices), lambda k: result == choices[k])",
+        "member": "0 <= IDX and IDX < len(choices) and result == choices[IDX]",
         "list_unchanged": "len(choices) == oldlen(choices)",
     },
+    witnesses={"IDX": ("i", "int")},
     modifies=["self.*"],
     allocates=False,
     props=["C18", "C04", "C17"],
